@@ -102,6 +102,9 @@ class Sym(object):
         self.writes = sorted([n for n in block.logic if n.op == '@'],
                              key=lambda n: tuple(a.name for a in n.args))
         self.rnets = [n for n in block.logic if n.op == 'r']
+        # snapshot: in-place passes may mutate the block after this object is built
+        self.consts = [(w, w.val, w.bitwidth) for w in block.wirevector_set
+                       if isinstance(w, pyrtl.Const)]
 
     def fresh_state(self, prefix):
         regs = {r: z3.BitVec('%s_r_%s' % (prefix, r.name), r.bitwidth) for r in self.regs}
@@ -119,9 +122,8 @@ class Sym(object):
     def step(self, state, inputs):
         """One cycle.  Returns (value: wire -> term, next_state)."""
         val = {}
-        for w in self.block.wirevector_set:
-            if isinstance(w, pyrtl.Const):
-                val[w] = z3.BitVecVal(w.val, w.bitwidth)
+        for (w, v, bw) in self.consts:
+            val[w] = z3.BitVecVal(v, bw)
         for w in self.inputs:
             val[w] = inputs[w.name]
         for r in self.regs:
